@@ -17,7 +17,8 @@
   Python methods mirrored (file as of the `fix:` commits fd508f0 / fb52885: `to_dict` copies,
   `compute_results` returns copies of the cache):
     _ensure_copy, get_current, set_current, update_current, get_history, get_last_history,
-    commit_current_to_history, compute_results (+ cache, _invalidate_cache), to_dict,
+    commit_current_to_history, compute_results (+ cache, _invalidate_cache), compute_logw_and_logz (as an
+    accessor: fresh array, stand-in payload), to_dict,
     update_from_dict (from_dict = update_from_dict on `init`).
   Not modelled: array shapes/dtypes (payload is the flattened content; `np.array` of a ragged or
   None-containing list is an unreadable cell), the numerical content of `logw` (a stand-in that reads
@@ -218,6 +219,7 @@ inductive Op where
   | getLastHistory (k : Key)
   | commit (strict : Bool)
   | computeResults
+  | logw (beta : Int)      -- `compute_logw_and_logz(beta_final)`: an accessor, hands out a freshly computed array
   | toDict
   | updateFromDict (cur : Option (List (Key × Arg))) (hist : Option (List (Key × List Arg)))
   | scribble (a : Addr) (p : Content)
@@ -343,6 +345,10 @@ def step (s : State) : Op → State × Res
       let h1 := f.1 ++ [logwStub f.1 s.history]
       let r := copyDict h1 c
       ({ s with heap := r.1, cache := some c, escaped := dictAddrs r.2 ++ s.escaped }, .dict r.2)
+  | .logw _ =>
+    -- `logw = A - B` (and `logw - logaddexp.reduce(logw)`): a new array on every call; reads history entries only
+    ({ s with heap := s.heap ++ [logwStub s.heap s.history], escaped := s.heap.length :: s.escaped },
+     .val (.ref s.heap.length))
   | .toDict =>
     let rc := copyDict s.heap s.current
     let rh := copyHist rc.1 s.history
@@ -406,11 +412,15 @@ structure Obs where
   current : List (Key × PVal)          -- `get_current()`
   history : List (Key × List PVal)     -- `get_history(key, i)` for every key and index
   results : PRes                       -- what `compute_results()` returns if called now
+  logw : PVal                          -- what `compute_logw_and_logz()` returns if called now (stand-in payload)
   deriving DecidableEq, Repr
 
 def observe (s : State) : Obs :=
   { current := derefDict s.heap s.current
     history := derefHist s.heap s.history
-    results := derefRes (step s .computeResults).1.heap (step s .computeResults).2 }
+    results := derefRes (step s .computeResults).1.heap (step s .computeResults).2
+    logw := match logwStub s.heap s.history with
+      | some c => .arr c
+      | none => .opaque }
 
 end Model.StateMgr
